@@ -39,7 +39,8 @@ EXPLANATION = (
     "(R3) the body written by _send_response has provenance response.body (optionally UTF-8 "
     "encoded) with no slicing/stripping, and the three url-rewrapping GeminiResponse "
     "constructions pass status/meta/body through. (R4/R5) both listeners construct the same "
-    "protocol; the raw transport is written only with bio_read output."
+    "protocol; the raw transport is written only with bio_read output. "
+    "(R2, abort) transport.abort() - which discards queued output - is not reachable in the manual TLS classes once the handshake may be complete, nor in the inner protocol after a response write."
 )
 
 PARTIAL_WRITE = {
